@@ -77,6 +77,14 @@ HALPHA = [
 ]
 
 
+# second history base: both kinds of per-interval parameter, a grid with its own time variables, guesses in between
+HBASE2 = P.case(state="vec2", pg="scalar", pc="both", horizon="fixed", grid="uniform_lT", cons=[P.con("bc0")], obj=["mayer_tf", "integral_pcq"], method="MS", N=2)
+HALPHA2 = [
+    ["set_value", "pg", "a"], ["set_value", "pg", "b"], ["set_value", "pcq", 0.9], ["set_value", "pc", "B"],
+    ["set_initial", "u", "const", 0.3], ["query", "sample"], ["solve"], ["subject_to", P.con("pc_le")],
+]
+
+
 def cases(tier):
     k = 3 if tier == "thorough" else 2
     out = []; seen = set()
@@ -89,6 +97,9 @@ def cases(tier):
     depth = 4 if tier == "thorough" else 3
     for h in explore.histories(list(range(len(HALPHA))), depth):
         out.append(dict(kind="history", ops=[HALPHA[i] for i in h]))
+    for h in explore.histories(list(range(len(HALPHA2))), depth):
+        if h:
+            out.append(dict(kind="history", base=2, ops=[HALPHA2[i] for i in h]))
     # plugin integrators inside the shooting methods (no reference model of their arithmetic: the parametric OCP
     # is compared with the same OCP declared with the values written in, on the real code)
     for meth in ("MS", "SS"):
@@ -169,8 +180,8 @@ def run_case(case):
         return _trans.run_trans(case, OWN, extra_check=const_twin)
     if case["kind"] == "plugin_twin":
         return run_plugin_twin(case)
-    out = hist.run_history(HBASE, case["ops"])
-    tags = []
+    out = hist.run_history(HBASE2 if case.get("base") == 2 else HBASE, case["ops"])
+    tags = ["base=2"] if case.get("base") == 2 else []
     seen_tr = False
     for op in case["ops"]:
         if op[0] in ("query", "solve"): seen_tr = True
@@ -184,6 +195,6 @@ def run_case(case):
 
 def describe(tier):
     return dict(
-        rule="(c) plugin integrators (cvodes, collocation) inside MS / SS x parameter kinds x parametric horizons x M: parametric NLP = the NLP of the same OCP with the global / horizon values written in (rows and objective at 3 generic points, 1e-6); (a) deviation-bounded enumeration over parameter kind (global scalar / 2x2 matrix / per-interval / per-interval+include_last / parametric T / parametric t0) x place of use (rhs, bound, objective, initial condition) x value alphabet (two generic values, unit tables per column, unit matrices per element) x method/N/M/grid/degree: all NLP data vs the reference evaluated with the declared values, and vs the same OCP declared on the real code with the values written in as constants; (b) every history of length <= d over {set_value(p,a|b), set_value(q,A|B), set_value(vertcat(p,T),..), query, solve, subject_to, method}: next solve = fresh OCP with the final values (whole parameter vector compared)",
+        rule="(c) plugin integrators (cvodes, collocation) inside MS / SS x parameter kinds x parametric horizons x M: parametric NLP = the NLP of the same OCP with the global / horizon values written in (rows and objective at 3 generic points, 1e-6); (a) deviation-bounded enumeration over parameter kind (global scalar / 2x2 matrix / per-interval / per-interval+include_last / parametric T / parametric t0) x place of use (rhs, bound, objective, initial condition) x value alphabet (two generic values, unit tables per column, unit matrices per element) x method/N/M/grid/degree: all NLP data vs the reference evaluated with the declared values, and vs the same OCP declared on the real code with the values written in as constants; (b2) the same over {set_value of a global, a plain per-interval and (one scalar) an include_last per-interval parameter, a guess of the control, query, solve, subject_to} on a grid with its own time variables; (b) every history of length <= d over {set_value(p,a|b), set_value(q,A|B), set_value(vertcat(p,T),..), query, solve, subject_to, method}: next solve = fresh OCP with the final values (whole parameter vector compared)",
         bound="k<=%d deviations; history depth %d" % ((3, 4) if tier == "thorough" else (2, 3)),
         assumptions=["CasADi Function evaluation and Opti bookkeeping are trusted", "generic-point alphabet", "per-interval parameters have no constant form: they are compared with the reference only"])
